@@ -1,7 +1,7 @@
 """C12 - replicated writes are acknowledged only at quorum; reads survive replica loss.
 
 S: Replica.tla, all configurations/outcome vectors/orders for N=3 (quick) and N=4 (thorough): QuorumAtAck,
-   ErrOnlyBelowQuorum, Decided, ReadsSurvive, ReadsSurviveLoss (fetch under every subset of lost read replicas), ExactlyOnce (+ NoResurrection/AckedReadable with Deviations={});
+   ErrOnlyBelowQuorum, Decided, ReadsSurvive, ReadsSurviveLoss (fetch under every subset of lost read replicas), ListsSurviveLoss (stat/enumerate likewise: the map's answer or a failure), ExactlyOnce (+ NoResurrection/AckedReadable with Deviations={});
    sensitivity: each deviation the code is believed to have must violate NoResurrection.
 G: ReplicaGen.tla enumerates every scenario; the real replica store is stepped through each by the gate
    scheduler (uploads released in TLC's order, outcomes injected by the gates).
@@ -101,6 +101,8 @@ def run(ctx, replay):
         ctx.tlc_check("Replica", "Replica.cfg", overrides={"Deviations": dev}, workers=12, expect_violation="NoResurrection")
     ctx.tlc_check("Replica", "Replica.cfg", overrides={"Deviations": '{"FetchStopsAtError"}', "N": 2, "FullConfig": "TRUE"}, workers=8,
                   expect_violation="ReadsSurviveLoss")
+    ctx.tlc_check("Replica", "Replica.cfg", overrides={"Deviations": '{"StatSkipsFailedReplica"}', "N": 2, "FullConfig": "TRUE"}, workers=8,
+                  expect_violation="ListsSurviveLoss")
     if not quick:
         ctx.tlc_check("Replica", "Replica.cfg", overrides={"FullConfig": "TRUE", "Blobs": "{2}"}, workers=14, timeout=1800, coverage=True)
     ufut.result()
